@@ -84,6 +84,15 @@ type HarnessResult struct {
 	PathLimitHit    bool
 	ObligSMT        []ObligQuery   // obligation queries as standalone SMT-LIB2 text (for cross-checking)
 	Panics          map[string]int // expected (tolerated) panic messages and their counts
+	Witnesses       []Witness      // models of passing paths, for native conformance replay
+	witnessSeen     int
+}
+
+// Witness is a model of the inputs of one passing path together with what the engine observed
+// on it; the native run on the same inputs must observe the same.
+type Witness struct {
+	Model  map[string]string `json:"model"`
+	Covers []string          `json:"covers"`
 }
 
 func newHarnessResult(name string) *HarnessResult {
@@ -105,6 +114,7 @@ type Options struct {
 	KeepSMT      bool
 	PanicOK      bool // target panics escaping the harness are tolerated (counted), not violations
 	Deadline     time.Time
+	Witnesses    int // passing paths (without uninterpreted values) whose model is kept for native conformance replay
 }
 
 type pathCtx struct {
@@ -121,6 +131,7 @@ type pathCtx struct {
 	fnSteps    map[*ssa.Function]int64
 	intr       map[string]int
 	nAnon      int
+	nDet       int
 	panicOK    bool
 	hashes     map[string][]hashRec
 	funcs      map[string][]hashRec
@@ -130,6 +141,10 @@ type pathCtx struct {
 	symMaps    map[uintptr]*[]symEntry
 	symMapKeep []map[value]value
 	bech       []bechRec
+	coverSeq   []string
+	violated   bool
+	tainted    bool // a decision or assumption of this path depends on an uninterpreted value
+	anonMemo   map[*Term]bool
 }
 
 type worker struct {
@@ -243,6 +258,7 @@ func (px *pathCtx) decideX(conds []*Term, exhaustive bool) int {
 		c := px.prefix[pos]
 		px.decisions = append(px.decisions, c)
 		px.symDecs++
+		px.noteTaint(conds[c])
 		px.assertPC(conds[c])
 		return c
 	}
@@ -288,6 +304,7 @@ func (px *pathCtx) decideX(conds []*Term, exhaustive bool) int {
 	}
 	px.decisions = append(px.decisions, chosen)
 	px.symDecs++
+	px.noteTaint(conds[chosen])
 	px.assertPC(conds[chosen])
 	return chosen
 }
@@ -465,6 +482,7 @@ func (px *pathCtx) obligation(cond value, label, kind, pos string) {
 		m := px.model()
 		px.solver.Pop()
 		res.mu.Lock()
+		px.violated = true
 		res.Violations = append(res.Violations, Violation{Harness: res.Name, Label: label, Kind: kind, Model: m,
 			Decisions: append([]int(nil), px.decisions...), Pos: pos})
 		res.mu.Unlock()
@@ -485,6 +503,7 @@ func (px *pathCtx) obligation(cond value, label, kind, pos string) {
 }
 
 func (px *pathCtx) cover(label string) {
+	px.coverSeq = append(px.coverSeq, label)
 	res := px.w.ex.res
 	res.mu.Lock()
 	res.CoverCount[label]++
@@ -626,6 +645,7 @@ func (w *worker) runPath(fn *ssa.Function, prefix []int) {
 		}()
 		call(w.i, nil, token.NoPos, fn, nil)
 		completed = true
+		px.keepWitness()
 		if !px.panicOK && !ex.opt.PanicOK {
 			// implicit obligation of every path: no panic escaped the harness
 			res.mu.Lock()
@@ -884,4 +904,74 @@ func DumpForkProfile() {
 		}
 		fmt.Fprintf(os.Stderr, "FORKS %8d %s\n", e.n, e.k)
 	}
+}
+
+// keepWitness samples passing paths whose inputs are all named harness inputs (no value came
+// from an uninterpreted function or an unconstrained stub, which a native run would compute
+// differently): their model is replayed natively and must show the same cover points, no failed
+// assertion and no panic. Sampling: the first paths seen and then every 2^k-th.
+func (px *pathCtx) keepWitness() {
+	ex := px.w.ex
+	if ex.opt.Witnesses <= 0 || px.violated || px.tainted || len(px.vars) == 0 {
+		return
+	}
+	res := ex.res
+	res.mu.Lock()
+	res.witnessSeen++
+	n := res.witnessSeen
+	take := len(res.Witnesses) < ex.opt.Witnesses && (n <= ex.opt.Witnesses/2 || n&(n-1) == 0)
+	res.mu.Unlock()
+	if !take || px.solver.Check() != Sat {
+		return
+	}
+	m := px.model()
+	res.mu.Lock()
+	if len(res.Witnesses) < ex.opt.Witnesses {
+		res.Witnesses = append(res.Witnesses, Witness{Model: m, Covers: append([]string(nil), px.coverSeq...)})
+	}
+	res.mu.Unlock()
+}
+
+// noteTaint marks the path when a decision or assumption mentions a value that the engine leaves
+// uninterpreted (hash outputs, signature bytes, EIP-55 case bits, bech32 text of symbolic bytes):
+// a native run computes such values, so the path is not a conformance witness.
+func (px *pathCtx) noteTaint(t *Term) {
+	if px.tainted || px.w.ex.opt.Witnesses <= 0 {
+		return
+	}
+	if px.anonMemo == nil {
+		px.anonMemo = map[*Term]bool{}
+	}
+	if px.hasAnon(t) {
+		px.tainted = true
+	}
+}
+
+func (px *pathCtx) hasAnon(t *Term) bool {
+	if t == nil {
+		return false
+	}
+	if v, ok := px.anonMemo[t]; ok {
+		return v
+	}
+	r := false
+	if t.op == "var" {
+		r = strings.HasPrefix(t.name, "|anon!")
+	} else {
+		for _, a := range t.args {
+			if px.hasAnon(a) {
+				r = true
+				break
+			}
+		}
+	}
+	px.anonMemo[t] = r
+	return r
+}
+
+// freshDet is a fresh variable whose value is fully determined by constraints over other values
+// (e.g. the decimal digits of a number): harmless for conformance witnesses.
+func (px *pathCtx) freshDet(s Sort) *Term {
+	px.nDet++
+	return px.freshVar(fmt.Sprintf("det!%d", px.nDet), s)
 }
